@@ -31,9 +31,6 @@ structure TextBlind {γ : Type} (ctl : Controller γ) (E : γ → γ → Prop) :
   trans : ∀ g1 g2 g3, E g1 g2 → E g2 g3 → E g1 g3
   /-- tokens are observed through their absolute form -/
   token_norm : ∀ g t t', normToken t = normToken t' → ctl.token g t = ctl.token g t'
-  /-- doctype tokens are observed through `force_quirks`, their raw bytes and their source range -/
-  token_doctype : ∀ g n p s n' p' s' fq raw src,
-    ctl.token g (.doctype n p s fq raw src) = ctl.token g (.doctype n' p' s' fq raw src)
   /-- attribute buffers: either the controller fails on an out-of-range slice, or it reads the same bytes -/
   aux_norm : ∀ g i i', AuxRefines i i' → EPanic (ctl.auxInfo g i).2 ∨ ctl.auxInfo g i = ctl.auxInfo g i'
   start : ∀ g g' n ns, E g g' → (ctl.startTag g n ns).2 = (ctl.startTag g' n ns).2 ∧ E (ctl.startTag g n ns).1 (ctl.startTag g' n ns).1
@@ -844,9 +841,39 @@ def TokRel (ctl : Controller γ) (inpS : Bytes) (raw : Range) : Option Token →
       raw.start ≤ raw.end ∧ raw.end ≤ inpS.length
   | _, _ => False
 
+/-- a range that ends inside the split input (or the inputs end together) is sliced alike in both runs, also
+by the silent `get` -/
+theorem checkedSlice_sh_eq {inpS inpW : Bytes} {δ : Nat} (F : Frame inpS inpW δ) (r : Range)
+    (hin : inpW.length = inpS.length + δ ∨ r.end ≤ inpS.length) :
+    checkedSlice inpW (shR δ r) = checkedSlice inpS r := by
+  cases hs : checkedSlice inpS r with
+  | some b => exact F.checkedSlice hs
+  | none =>
+    unfold checkedSlice at hs ⊢
+    have hl := F.len
+    split at hs
+    · cases hs
+    · rename_i hc
+      rw [if_neg]
+      intro hw
+      simp only [shR] at hw
+      apply hc
+      rcases hin with h | h
+      · exact ⟨by omega, by omega⟩
+      · exact ⟨by omega, h⟩
+
+theorem optSlice_sh_eq {inpS inpW : Bytes} {δ : Nat} (F : Frame inpS inpW δ) (o : Option Range)
+    (hin : inpW.length = inpS.length + δ ∨ leOR inpS.length o) :
+    (o.map (shR δ)).bind (checkedSlice inpW) = o.bind (checkedSlice inpS) := by
+  cases o with
+  | none => rfl
+  | some r =>
+    simp only [Option.map_some, Option.bind_some]
+    exact checkedSlice_sh_eq F r hin
+
 theorem nonTagToToken_sim {E : γ → γ → Prop} {inpS inpW : Bytes} {δ : Nat} (F : Frame inpS inpW δ) (hcl : TextBlind ctl E)
     (f : Flags) (pc : Nat) (raw : Range) (o : Option NonTagOutline) (r : Option Token)
-    (h : nonTagToToken f inpS ⟨pc + δ, raw, o⟩ = some r) :
+    (h : nonTagToToken f inpS ⟨pc + δ, raw, o⟩ = some r) (hdt : DtIn inpS inpW δ o) :
     ∃ r', nonTagToToken f inpW ⟨pc, shR δ raw, o.map (shNonTag δ)⟩ = some r' ∧ TokRel ctl inpS raw r r' := by
   unfold nonTagToToken at h ⊢
   cases o with
@@ -886,14 +913,19 @@ theorem nonTagToToken_sim {E : γ → γ → Prop} {inpS inpW : Bytes} {δ : Nat
           rw [F.checkedSlice hr]
           obtain ⟨r1, r2, _⟩ := checkedSlice_some hr
           refine ⟨_, rfl, fun g => ?_, rfl, r1, r2⟩
-          rw [srcOf_sh]
-          exact hcl.token_doctype g _ _ _ _ _ _ _ _ _
+          have hdt' : inpW.length = inpS.length + δ ∨ leNonTag inpS.length (.doctype dt) := hdt
+          have h1 := optSlice_sh_eq F dt.name (hdt'.imp id (fun h => h.1))
+          have h2 := optSlice_sh_eq F dt.publicId (hdt'.imp id (fun h => h.2.1))
+          have h3 := optSlice_sh_eq F dt.systemId (hdt'.imp id (fun h => h.2.2))
+          simp only [shDoctype]
+          rw [srcOf_sh, h1, h2, h3]
       · rw [if_neg hf] at h ⊢
         simp only [Option.some.injEq] at h; subst h; exact ⟨none, rfl, trivial⟩
 
 /-- **`LexemeSink::handle_non_tag_content`**, no text debt -/
 theorem handleNonTag_sim {E : γ → γ → Prop} {inpS inpW : Bytes} {δ : Nat} (F : Frame inpS inpW δ) (hcl : TextBlind ctl E)
-    {ds dw : Disp γ} (h : DK0 E inpS inpW δ ds dw) (pc : Nat) (raw : Range) (o : Option NonTagOutline) :
+    {ds dw : Disp γ} (h : DK0 E inpS inpW δ ds dw) (pc : Nat) (raw : Range) (o : Option NonTagOutline)
+    (hdt : DtIn inpS inpW δ o) :
     OpRel (DK0 E inpS inpW δ) (Disp.handleNonTag ctl inpS ⟨pc + δ, raw, o⟩ ds)
       (Disp.handleNonTag ctl inpW ⟨pc, shR δ raw, o.map (shNonTag δ)⟩ dw) := by
   unfold Disp.handleNonTag
@@ -914,7 +946,7 @@ theorem handleNonTag_sim {E : γ → γ → Prop} {inpS inpW : Bytes} {δ : Nat}
       cases hr : nonTagToToken ds.flags inpS ⟨pc + δ, raw, o⟩ with
       | none => exact Or.inl trivial
       | some r =>
-        obtain ⟨r', hw, hrel⟩ := nonTagToToken_sim F hcl ds.flags pc raw o r hr
+        obtain ⟨r', hw, hrel⟩ := nonTagToToken_sim F hcl ds.flags pc raw o r hr hdt
         rw [hw]
         cases r with
         | none =>
@@ -1118,7 +1150,7 @@ theorem handleNonTag_text (d : Disp γ) (input : Bytes) (pc : Nat) (raw : Range)
 theorem dispOps_sim {E : γ → γ → Prop} {inpS inpW : Bytes} {δ : Nat} (F : Frame inpS inpW δ) (hcl : TextBlind ctl E) :
     OpsSim (dispOps ctl) inpS inpW δ (DK ctl E inpS inpW δ) DLoc where
   tag := fun pc raw o ks kw hk => (handleTag_sim F hcl (DK_zero.1 hk) pc raw o).mono (fun _ _ h => DK_zero.2 h)
-  nonTag := fun pc raw o ks kw hk => (handleNonTag_sim F hcl (DK_zero.1 hk) pc raw o).mono (fun _ _ h => DK_zero.2 h)
+  nonTag := fun pc raw o ks kw hk hdt => (handleNonTag_sim F hcl (DK_zero.1 hk) pc raw o hdt).mono (fun _ _ h => DK_zero.2 h)
   startHint := fun n ns ks kw hk => (startTagHint_sim hcl (DK_zero.1 hk) n ns).mono (fun _ _ h => DK_zero.2 h)
   endHint := fun n ks kw hk => (endTagHint_sim hcl (DK_zero.1 hk) n).mono (fun _ _ h => DK_zero.2 h)
   textOk := by
